@@ -824,7 +824,7 @@ func main() {
 		Rule:        "case = scenario, seed, number of goroutines, rounds; every goroutine's result is compared with the same work done alone, under the race detector; non-trivial = at least two goroutines were observed inside their work at the same time (shared atomic counter); distinct by case text",
 		Gen:         gen,
 		Exec:        exec1,
-		CaseTimeout: 200 * time.Second,
+		CaseTimeout: 400 * time.Second,
 		Workers:     3,
 		MemMB:       0,
 		WorkerEnv:   []string{"GORACE=halt_on_error=1 exitcode=66 atexit_sleep_ms=0", "GOMAXPROCS=8"},
